@@ -139,7 +139,9 @@ fn decode_loop(
                 total_bytes_read += bytes_read;
                 // The output is already reserved to the size of the input. We slowly resize. Here,
                 // we're expecting that 10% of bytes will double in size when converting to UTF-8.
-                output.reserve(input.len() / 10);
+                // Always make room for at least one more character: `input.len() / 10` is 0 for
+                // short inputs, which would make this loop spin without making progress.
+                output.reserve((input.len() / 10).max(8));
             }
             (DecoderResult::Malformed(malformed_len, bytes_after_malformed), bytes_read) => {
                 total_bytes_read += bytes_read;
